@@ -337,6 +337,18 @@ func storedSpelling(m *dns.Msg) *dns.Msg {
 				v.Mx = strings.ToLower(v.Mx)
 			case *dns.SRV:
 				v.Target = strings.ToLower(v.Target)
+			case *dns.MB:
+				v.Mb = strings.ToLower(v.Mb)
+			case *dns.MG:
+				v.Mg = strings.ToLower(v.Mg)
+			case *dns.MR:
+				v.Mr = strings.ToLower(v.Mr)
+			case *dns.MF:
+				v.Mf = strings.ToLower(v.Mf)
+			case *dns.MD:
+				v.Md = strings.ToLower(v.Md)
+			case *dns.MINFO:
+				v.Rmail, v.Email = strings.ToLower(v.Rmail), strings.ToLower(v.Email)
 			case *dns.SOA:
 				v.Ns, v.Mbox = strings.ToLower(v.Ns), strings.ToLower(v.Mbox)
 			case *dns.RRSIG:
@@ -512,6 +524,12 @@ func account(r *vlib.Run, g *Group, raw, inl, msg *Transcript) {
 		if p.Target == "chain-mixed" && rung == "chase" {
 			accountMixed(r, s, msg.Steps[i])
 		}
+		if p.Target == "chain-rich" {
+			accountRich(r, p, s, msg.Steps[i])
+		}
+		if strings.HasPrefix(p.Note, "depth=") {
+			accountDepth(r, g, p, s, msg.Steps[i])
+		}
 		for _, tag := range strings.Split(p.Shape, ",") {
 			if tag != "" {
 				if j := strings.IndexAny(tag, "0123456789"); j > 0 && !strings.HasPrefix(tag, "name:") {
@@ -580,6 +598,133 @@ func accountMixed(r *vlib.Run, s, ref Step) {
 	if len(s.Reply.Bits) == 8 {
 		r.Count("mixed_chase_reply_ad"+string(s.Reply.Bits[6]), 1)
 	}
+}
+
+// wireBorn reports whether the strict parser admitted the step's packet (the
+// wire ladder ran for it).
+func wireBorn(s Step) bool {
+	switch rungClass(s.Rung) {
+	case "undecodable", "declined-to-decode":
+		return false
+	}
+	return true
+}
+
+var richQtypesSeen = map[string]bool{}
+
+// accountRich records a case packet aimed at a bare alias in front of a rich
+// terminal (p.Note: "qtype=<T> hops=<n>"): which question types went through
+// the wire ladder, which the composer served, and what the terminal RRset the
+// client was owed looked like (taken from the decoded world's reply).
+func accountRich(r *vlib.Run, p Pkt, s, ref Step) {
+	if !wireBorn(s) || len(ref.Reply.QD) != 1 {
+		return
+	}
+	var qt, hops string
+	for _, f := range strings.Fields(p.Note) {
+		if k, v, ok := strings.Cut(f, "="); ok && k == "qtype" {
+			qt = v
+		} else if ok && k == "hops" {
+			hops = v
+		}
+	}
+	// the packet may ask something else than the target (hostile name shapes)
+	f := strings.Split(ref.Reply.QD[0], "|")
+	if len(f) != 3 || f[1] != fmt.Sprint(dns.StringToType[qt]) || !strings.HasPrefix(strings.ToLower(f[0]), "cn") {
+		return
+	}
+	rung := rungClass(s.Rung)
+	r.Count("rich_alias_pairs", 1)
+	r.Count("rich_alias_rung_"+rung, 1)
+	r.Count("rich_alias_qtype_"+qt+"_"+rung, 1)
+	r.DistinctIn("rich_alias_qtype_x_hops_x_rung", qt+"/"+hops+"/"+rung)
+	if !richQtypesSeen[qt] {
+		richQtypesSeen[qt] = true
+		r.Count("rich_alias_qtypes_seen", 1)
+	}
+	if rung == "chase" {
+		r.Count("rich_chase_served", 1)
+	}
+	if ref.Reply.Rcode != dns.RcodeSuccess {
+		return
+	}
+	aliases, terminal, named := 0, 0, 0
+	for _, rr := range ref.Reply.Answer {
+		switch {
+		case rr.Type == dns.TypeCNAME && qt != "CNAME":
+			aliases++
+		case dns.TypeToString[rr.Type] == qt:
+			terminal++
+			if len(rr.Names) > 0 {
+				named++
+			}
+		}
+	}
+	if aliases == 0 || terminal == 0 {
+		return
+	}
+	r.Count("rich_alias_answered", 1)
+	if terminal >= 2 {
+		r.Count("rich_alias_multi_record_terminal", 1)
+	}
+	if named >= 1 {
+		// a terminal RRset whose rdata holds compressible domain names
+		r.Count("rich_alias_compressible_terminal", 1)
+		if named >= 2 {
+			r.Count("rich_alias_compressible_terminal_multi", 1)
+		}
+	}
+}
+
+// accountDepth records a case packet aimed at the denial / failure interplay of
+// the depth block (p.Note: "depth=<apex labels> below=<labels below the apex>").
+func accountDepth(r *vlib.Run, g *Group, p Pkt, s, ref Step) {
+	if !wireBorn(s) {
+		return
+	}
+	var depth, below, outer string
+	for _, f := range strings.Fields(p.Note) {
+		if k, v, ok := strings.Cut(f, "="); ok && k == "depth" {
+			depth = v
+		} else if ok && k == "below" {
+			below = v
+		} else if ok && k == "outer" {
+			outer = v
+		}
+	}
+	rung, cls := rungClass(s.Rung), rcodeClass(ref.Reply)
+	cd := len(ref.Reply.Bits) == 8 && ref.Reply.Bits[7] == '1'
+	r.Count("depth_pairs", 1)
+	r.Count("depth_"+p.Target+"_"+rung+"_"+cls, 1)
+	r.DistinctIn("depth_x_below_x_state_x_rung", depth+"/"+below+"/"+p.Target+"/"+rung+"/"+cls)
+	if outer != "" {
+		// the root zone holds a denial snapshot as well (two zones on the path)
+		r.Count("depth_outer_root_"+outer+"_"+p.Target+"_"+rung, 1)
+		r.Count("depth_outer_root_"+outer, 1)
+	}
+	switch p.Target {
+	case "failure-denied-later", "failure-denied-by-replacement":
+		// the question failed, the failure is inside its first backoff interval
+		// (the depth block closes the history) and a denial admitted since covers
+		// the name: the decoded ladder answers from the denial
+		if cls == "nxdomain" && !cd && len(s.Stub) == 0 {
+			r.Count("denied_failure_shadowed", 1)
+			r.Count("denied_failure_shadowed_depth"+depth, 1)
+			r.Count("denied_failure_shadowed_below"+below, 1)
+			r.Count("denied_failure_shadowed_"+p.Target, 1)
+		}
+	case "failure-witness-depth":
+		// no denial state moved since the failure: served from bytes
+		if rung == "failure" {
+			r.Count("depth_failure_served_wire", 1)
+			r.Count("depth_failure_served_wire_depth"+depth, 1)
+		}
+	case "failure-witness-replaced":
+		if cls == "servfail" && len(s.Stub) == 0 {
+			r.Count("depth_failure_witness_replaced_"+rung, 1)
+		}
+	}
+	_ = g
 }
 
 // accountSession records what a session step observed (raw world s, inline
@@ -873,6 +1018,14 @@ func main() {
 		r.Finish("replay of one group")
 	}
 
+	// the rich terminal's RRsets are written as zone-file text: build every one
+	// once so a typo stops the run here (mustRR panics), not in a world
+	for _, t := range richTypes {
+		if len(richSet("rs-1."+zoneS, t, zoneS, "1")) == 0 {
+			r.Fatalf("universe: rich terminal has no RRset for type %d", t)
+		}
+	}
+
 	ngroups := r.N(300, 7200)
 	if v := os.Getenv("C05_GROUPS"); v != "" { // development aid only; ./check never sets it
 		fmt.Sscanf(v, "%d", &ngroups)
@@ -881,7 +1034,7 @@ func main() {
 	start := time.Now()
 	for i := 0; i < ngroups; i++ {
 		rng := r.RandN("group", i)
-		g := genGroup(rng, r.RandN("group-x", i), i, r.Seed, npkts)
+		g := genGroup(rng, r.RandN("group-x", i), r.RandN("group-y", i), i, r.Seed, npkts)
 		for _, p := range g.Pkts {
 			b, _ := hex.DecodeString(p.Hex)
 			checkAdmission(r, b)
@@ -920,6 +1073,21 @@ func main() {
 	for c, min := range map[string]int64{"mixed_chase_served": 80, "mixed_chase_hops_differ_ad": 30, "mixed_chase_head_ad1_hop_ad0": 10,
 		"mixed_chase_head_ad0_hop_ad1": 10, "mixed_chase_ad_differs_visible": 10, "mixed_chase_hops_differ_ede": 30,
 		"mixed_chase_hops_differ_sig": 30, "mixed_chase_hops_differ_short": 30} {
+		r.Require(c, min)
+	}
+	// bare aliases in front of rich terminals (every question type, RRsets with
+	// compressible rdata names) through the wire ladder
+	for c, min := range map[string]int64{"rich_alias_pairs": 200, "rich_chase_served": 30, "rich_alias_qtypes_seen": 20, "rich_alias_answered": 100,
+		"rich_alias_multi_record_terminal": 60, "rich_alias_compressible_terminal": 20, "rich_alias_compressible_terminal_multi": 10} {
+		r.Require(c, min)
+	}
+	// cached failures shadowed by a denial admitted later, by apex depth of the
+	// denial zone (0 = the root zone) and depth of the name below it
+	for c, min := range map[string]int64{"depth_pairs": 300, "denied_failure_shadowed": 60, "denied_failure_shadowed_depth0": 8,
+		"denied_failure_shadowed_depth1": 8, "denied_failure_shadowed_depth2": 8, "denied_failure_shadowed_depth4": 8,
+		"denied_failure_shadowed_below1": 8, "denied_failure_shadowed_below2": 8, "denied_failure_shadowed_below3": 8,
+		"denied_failure_shadowed_failure-denied-later": 20, "denied_failure_shadowed_failure-denied-by-replacement": 15,
+		"depth_failure_served_wire": 15, "depth_failure_served_wire_depth0": 2, "depth_outer_root_start": 20, "depth_outer_root_end": 20} {
 		r.Require(c, min)
 	}
 	r.Require("pairs_raw", int64(r.N(3000, 80000)))
